@@ -204,6 +204,11 @@ func evalCase(d caseDesc) ev.Result {
 		body = m.ProveDeviceBody(peer.Token64{Signer: sk, PSS: pss})
 	case "replay-session", "replay-device":
 		body = replayBody
+	case "accomplice":
+		// a complete, fresh, internally consistent token of ANOTHER device enrolled with this owner:
+		// its key, its UEID, this session's nonce (two changes that are each refused alone)
+		sk, pss := signerFor(w, "device2")
+		body = m.ProveDeviceBody(peer.Token64{Signer: sk, PSS: pss, UEID: refcbor.B(append([]byte{1}, w.dev2.Cred.GUID[:]...))})
 	case "ueid":
 		g := append([]byte{}, m.GUID...)
 		var u *refcbor.Node
@@ -370,13 +375,25 @@ func evalCase(d caseDesc) ev.Result {
 			msg, perr = m.Encrypt(plain)
 		case "plaintext":
 			msg = plain
-		case "selfkeys":
+		case "selfkeys", "zerokeys", "ffkeys":
+			// keys the peer picks itself: random, or the degenerate all-zero / all-ones keys of the
+			// cipher's key size (what a session that never completed its key exchange might be left with)
 			cs := d.Cfg.CipherID().Suite()
 			sek, svk := make([]byte, cs.EncryptAlg.KeySize()), []byte{}
-			_, _ = rand.Read(sek)
+			fill := func(b []byte) {
+				switch l.Mode {
+				case "selfkeys":
+					_, _ = rand.Read(b)
+				case "ffkeys":
+					for i := range b {
+						b[i] = 0xff
+					}
+				}
+			}
+			fill(sek)
 			if cs.MacAlg != 0 {
 				svk = make([]byte, cs.MacAlg.KeySize())
-				_, _ = rand.Read(svk)
+				fill(svk)
 			}
 			sc := kex.SessionCrypter{ID: d.Cfg.CipherID(), Cipher: cs, SEK: sek, SVK: svk}
 			enc, err := sc.Encrypt(rand.Reader, cbor.RawBytes(plain))
@@ -502,12 +519,12 @@ func genLater(t *rapid.T) []later {
 	var out []later
 	if rapid.Bool().Draw(t, "ordered") {
 		for _, typ := range []int{66, 68, 70} {
-			out = append(out, later{Type: typ, Mode: rapid.SampledFrom([]string{"honest", "honest", "plaintext", "selfkeys", "garbage", "othersession"}).Draw(t, "mode")})
+			out = append(out, later{Type: typ, Mode: rapid.SampledFrom([]string{"honest", "honest", "plaintext", "selfkeys", "zerokeys", "ffkeys", "garbage", "othersession"}).Draw(t, "mode")})
 		}
 		return out
 	}
 	for i := 0; i < rapid.IntRange(1, 4).Draw(t, "nlater"); i++ {
-		out = append(out, later{Type: rapid.SampledFrom([]int{66, 68, 70}).Draw(t, "ltype"), Mode: rapid.SampledFrom([]string{"honest", "plaintext", "selfkeys", "garbage", "othersession"}).Draw(t, "mode")})
+		out = append(out, later{Type: rapid.SampledFrom([]int{66, 68, 70}).Draw(t, "ltype"), Mode: rapid.SampledFrom([]string{"honest", "plaintext", "selfkeys", "zerokeys", "zerokeys", "ffkeys", "garbage", "othersession"}).Draw(t, "mode")})
 	}
 	return out
 }
@@ -520,7 +537,7 @@ func genCase(t *rapid.T) caseDesc {
 		d.Cfg = deploy.Config{Key: rapid.SampledFrom([]string{"P-256", "P-384"}).Draw(t, "eckey"), Enc: rapid.SampledFrom(deploy.EncNames).Draw(t, "enc"), Cipher: rapid.SampledFrom(deploy.CipherNames).Draw(t, "cipher")}
 		d.Cfg.Kex = deploy.DefaultKex(d.Cfg.Key)
 	}
-	kind := rapid.SampledFrom([]string{"honest", "skip", "signer", "replay-session", "replay-device", "ueid", "ueid", "claims", "claims", "claims", "mutate", "mutate", "mutate", "xb"}).Draw(t, "kind")
+	kind := rapid.SampledFrom([]string{"honest", "skip", "signer", "replay-session", "replay-device", "accomplice", "ueid", "ueid", "claims", "claims", "claims", "mutate", "mutate", "mutate", "xb"}).Draw(t, "kind")
 	d.Proof.Kind = kind
 	switch kind {
 	case "signer":
@@ -558,7 +575,7 @@ func TestC02(t *testing.T) {
 		}
 		return res
 	})
-	r.SetRule("attacks", "an attack client against the real owner service behind the real HTTP handler: honest 60/62*, then a ProveDevice that is honest, omitted, signed by another key (stranger, owner, another device of this owner, key of another kind), a genuine token replayed from another session of this device or from another device, a device-signed token whose UEID names another GUID (other device, first/last byte changed, wrong type byte, short, long, text) or whose claims are omitted / mistyped / stale / swapped (incl. the unprotected SetupDevice nonce and the FDO claim), one structure-aware mutation of the honest token, or a garbled key-exchange parameter; followed by 66/68/70 in or out of order, protected honestly, sent in plaintext, under self-chosen keys, under the keys of another proven session, or as garbage. Oracle: an independent reference decides from the bytes sent whether the token is signed by the voucher's device key over this session's nonce and the voucher GUID; SetupDevice(65) only for such a token (and then it decrypts under keys derived from the token's xB); 67/69/71 only after that and only for messages protected under this session's keys; without a valid proof the journal shows no ReplaceVoucher and no owner-module call; no panic. Non-trivial: any forged proof or any later message sent without proof or without the session keys; distinct by descriptor.")
+	r.SetRule("attacks", "an attack client against the real owner service behind the real HTTP handler: honest 60/62*, then a ProveDevice that is honest, omitted, signed by another key (stranger, owner, another device of this owner, key of another kind), a genuine token replayed from another session of this device or from another device, a fresh token of another enrolled device (its key AND its UEID, this session's nonce), a device-signed token whose UEID names another GUID (other device, first/last byte changed, wrong type byte, short, long, text) or whose claims are omitted / mistyped / stale / swapped (incl. the unprotected SetupDevice nonce and the FDO claim), one structure-aware mutation of the honest token, or a garbled key-exchange parameter; followed by 66/68/70 in or out of order, protected honestly, sent in plaintext, under self-chosen keys (random, all-zero, all-ones), under the keys of another proven session, or as garbage. Oracle: an independent reference decides from the bytes sent whether the token is signed by the voucher's device key over this session's nonce and the voucher GUID; SetupDevice(65) only for such a token (and then it decrypts under keys derived from the token's xB); 67/69/71 only after that and only for messages protected under this session's keys; without a valid proof the journal shows no ReplaceVoucher and no owner-module call; no panic. Non-trivial: any forged proof or any later message sent without proof or without the session keys; distinct by descriptor.")
 	ev.Rapid(r, "attacks", ev.N{Quick: 6000, Thorough: 200000}, genCase, evalCase)
 	ev.CheckWitness(r, "attacks", evalCase)
 }
